@@ -71,7 +71,7 @@ def canon_sim(c):
 def sources(work, tag, text):
     """(kind, factory returning the argument, cleanup)"""
     p = os.path.join(work, tag + '.dat')
-    pg = os.path.join(work, tag + '.dat.gz')
+    pg = os.path.join(work, tag + '#1;v?.dat.gz')        # a .gz name with characters that mean something in URLs
     with open(p, 'wb') as fh:
         fh.write(text.encode('utf-8'))
     with gzip.open(pg, 'wb') as fh:
@@ -194,7 +194,8 @@ def writer_product(work, others=True):
     return out
 
 
-NAMES = ['plain', 'a.gz', 'b.GZ', 'c.gz.txt', '.gz', 'gz', 'x.tar.gz', 'd.gzz', 'e.g', 'é.gz', 'f.json', 'http', 'https.gz']
+NAMES = ['plain', 'a.gz', 'b.GZ', 'c.gz.txt', '.gz', 'gz', 'x.tar.gz', 'd.gzz', 'e.g', 'é.gz', 'f.json', 'http', 'https.gz',
+         'run#2.csv.gz', 'q?x=1.gz', 'v;1.gz', 'a b.gz', 'p%20q.gz', 'x.gz#frag', 'y.gz?raw=true']
 
 
 def classify_read(res, arg):
